@@ -2,8 +2,9 @@
 """tools/seedimport.py <prop> <k> : copy a confirmed seeded change from /tmp/wt/<prop>-out into /verif/seeded/<prop>-m<k>/"""
 import json, os, shutil, subprocess, sys
 prop, k = sys.argv[1], sys.argv[2]
-src = "/tmp/wt/%s-out" % prop
-dst = "/verif/seeded/%s-m%s" % (prop, k)
+rnd = sys.argv[3] if len(sys.argv) > 3 else ""
+src = "/tmp/wt/%s%s-out" % (prop, rnd)
+dst = "/verif/seeded/%s-m%s%s" % (prop, k, rnd)
 os.makedirs(dst, exist_ok=True)
 shutil.copy(os.path.join(src, "m%s.patch" % k), os.path.join(dst, "patch.diff"))
 shutil.copy(os.path.join(src, "m%s_demo.py" % k), os.path.join(dst, "demo.py"))
@@ -15,6 +16,6 @@ meta["property"] = prop
 meta["origin"] = "independent sub-agent given only the property text and a scratch worktree"
 meta["confirmed_by"] = ("tools/seedcheck.sh patch.diff demo.py on a scratch worktree of /repo HEAD (%s): demo exits 0 without the change, non-zero with it; "
                         "pinned suite passing set unchanged (tools/suite.py)" % subprocess.check_output(["git", "-C", "/repo", "rev-parse", "--short", "HEAD"], text=True).strip())
-meta["run_with"] = "tools/runseed.sh seeded/%s-m%s quick" % (prop, k)
+meta["run_with"] = "tools/runseed.sh seeded/%s-m%s%s quick" % (prop, k, rnd)
 json.dump(meta, open(os.path.join(dst, "meta.json"), "w"), indent=1)
 print(dst)
